@@ -10,17 +10,18 @@ const (
 )
 
 type InstSpec struct {
-	ID        string        `json:"id"`
-	Group     string        `json:"group,omitempty"`
-	Priority  int           `json:"prio,omitempty"`
-	Takeover  bool          `json:"takeover,omitempty"`
-	Health    []string      `json:"health,omitempty"` // scripted results ok|bad|slow; repeated last; nil = no checker
-	HasHealth bool          `json:"has_health,omitempty"`
-	MaxFail   int           `json:"maxfail,omitempty"`
-	Monitored bool          `json:"monitored,omitempty"`
-	Grace     time.Duration `json:"grace,omitempty"`
-	NoPromoteBlock bool     `json:"no_promote_block,omitempty"`
-	DemoteDur time.Duration `json:"demote_dur,omitempty"` // OnDemote takes this long
+	ID             string        `json:"id"`
+	Group          string        `json:"group,omitempty"`
+	Priority       int           `json:"prio,omitempty"`
+	Takeover       bool          `json:"takeover,omitempty"`
+	Health         []string      `json:"health,omitempty"` // scripted results ok|bad|slow; repeated last; nil = no checker
+	HasHealth      bool          `json:"has_health,omitempty"`
+	MaxFail        int           `json:"maxfail,omitempty"`
+	Monitored      bool          `json:"monitored,omitempty"`
+	Grace          time.Duration `json:"grace,omitempty"`
+	NoPromoteBlock bool          `json:"no_promote_block,omitempty"`
+	DemoteDur      time.Duration `json:"demote_dur,omitempty"`     // OnDemote takes this long
+	PromoteLinger  time.Duration `json:"promote_linger,omitempty"` // OnPromote returns this long after its context was cancelled
 }
 
 type Item struct {
@@ -35,7 +36,7 @@ type Item struct {
 	CtxTimeout    time.Duration `json:"ctx_timeout,omitempty"` // 0 = background; <0 = already cancelled
 	Payload       string        `json:"payload,omitempty"`
 	Key           string        `json:"key,omitempty"`
-	Fixed         bool          `json:"fixed,omitempty"` // never moved by the explorer
+	Fixed         bool          `json:"fixed,omitempty"`  // never moved by the explorer
 	Manual        bool          `json:"manual,omitempty"` // fired only by a fine-mode trigger
 }
 
@@ -59,24 +60,25 @@ type Scenario struct {
 	AllowHang        bool            `json:"allow_hang,omitempty"`
 	AllowDrop        bool            `json:"allow_drop,omitempty"`
 	AllowDup         bool            `json:"allow_dup,omitempty"`
-	DropAll          bool            `json:"drop_all,omitempty"` // preset: watch events are dropped by default
+	DropAll          bool            `json:"drop_all,omitempty"`   // preset: watch events are dropped by default
 	HoldWatch        bool            `json:"hold_watch,omitempty"` // preset: watch events (not the nil marker) are held back by default; delivering one is a deviation
 	SplitApply       bool            `json:"split_apply,omitempty"`
+	WatchFirst       bool            `json:"watch_first,omitempty"` // default environment delivers watch notifications before it answers pending operations
 	RandMenu         []float64       `json:"rand_menu,omitempty"`
 	MoveScript       bool            `json:"move_script,omitempty"`
 	NoTimeDev        bool            `json:"no_time_dev,omitempty"` // do not offer "time" as a deviation
 	PartitionTimeout time.Duration   `json:"partition_timeout,omitempty"`
-	OnlyInst         []string        `json:"only_inst,omitempty"` // deviations only on ops of these instances
+	OnlyInst         []string        `json:"only_inst,omitempty"`    // deviations only on ops of these instances
 	FaultLabels      []string        `json:"fault_labels,omitempty"` // err/lose/hang deviations only on ops with these labels
-	DevFrom          time.Duration   `json:"dev_from,omitempty"`  // deviations only at/after this virtual time
+	DevFrom          time.Duration   `json:"dev_from,omitempty"`     // deviations only at/after this virtual time
 	DevUntil         time.Duration   `json:"dev_until,omitempty"`
 
 	// fine mode window
-	FineFrom  string `json:"fine_from,omitempty"` // script item name ("do:inst") whose firing switches fine mode on
-	FineAt    string `json:"fine_at,omitempty"`   // event name whose execution switches fine mode on (just before it runs)
-	FineFire  []int  `json:"fine_fire,omitempty"` // script items (marked Manual) fired at that moment
-	FinePts   int    `json:"fine_pts,omitempty"`
-	Preempt   int    `json:"preempt,omitempty"`
+	FineFrom string `json:"fine_from,omitempty"` // script item name ("do:inst") whose firing switches fine mode on
+	FineAt   string `json:"fine_at,omitempty"`   // event name whose execution switches fine mode on (just before it runs)
+	FineFire []int  `json:"fine_fire,omitempty"` // script items (marked Manual) fired at that moment
+	FinePts  int    `json:"fine_pts,omitempty"`
+	Preempt  int    `json:"preempt,omitempty"`
 
 	Fault *FaultSpec `json:"fault,omitempty"` // scripted store fault (C03)
 
@@ -101,9 +103,9 @@ func (s *Scenario) inst(id string) *InstSpec {
 }
 
 // Timing configurations (DESIGN §4).
-func K1(s *Scenario) *Scenario { s.H, s.TTL, s.Validation = 200 * ms, 600 * ms, 233*ms + 13*us; return s }
-func K2(s *Scenario) *Scenario { s.H, s.TTL, s.Validation = 200 * ms, 1000 * ms, 0; return s }
-func K3(s *Scenario) *Scenario { s.H, s.TTL, s.Validation = 4000 * ms, 12000 * ms, 0; return s }
+func K1(s *Scenario) *Scenario { s.H, s.TTL, s.Validation = 200*ms, 600*ms, 233*ms+13*us; return s }
+func K2(s *Scenario) *Scenario { s.H, s.TTL, s.Validation = 200*ms, 1000*ms, 0; return s }
+func K3(s *Scenario) *Scenario { s.H, s.TTL, s.Validation = 4000*ms, 12000*ms, 0; return s }
 
 func (s *Scenario) faultFree() *Scenario {
 	s.LatencyBound = s.H/2 - ms
